@@ -10,6 +10,7 @@ from typing import Any, Dict, List, Optional, Tuple
 
 from harness import common as C
 from harness import c10_ref as R
+from harness import c10_keys as K
 from harness import pdfwriter as W
 
 
@@ -179,6 +180,13 @@ def check(ctx: C.Ctx, cases, with_rc4: bool = True) -> None:
                                    {"password": [ord(c) for c in w]}, ref, out, {"kind": "saslprep-function"}))
             add("saslprep " + ",".join(str(ord(c)) for c in w), out, ("saslprep", {"password": [ord(c) for c in w]}))
 
+    # ---- round 6: unpad_aes (well-formed / malformed padding), per-object keys
+    if with_rc4:
+        K.add_unpad(ctx, add)
+        K.add_objkeys(ctx, add)
+        K.add_spec_select(ctx, add)
+        K.add_kdf(ctx, add)
+
     # ---- documents
     for ci, case in enumerate(cases):
         cfg = case.cfg
@@ -206,6 +214,7 @@ def check(ctx: C.Ctx, cases, with_rc4: bool = True) -> None:
             table = dict(R.PRIM_LOG)
         finally:
             R.PRIM_LOG = None
+        K.check_digest_lengths(ctx, table)
         add("primreset", None, None)
         for (kind, a, b, c), out in table.items():
             add("prim %s %s %s %s %s" % (kind, hx(a), hx(b), hx(c), hx(out)), None, None)
@@ -248,6 +257,8 @@ def check(ctx: C.Ctx, cases, with_rc4: bool = True) -> None:
             ctx.case(("model-open", ci, pw), True, branch="model:" + out.split(" ")[0] +
                      (":" + out.split(" ")[1] if out.startswith("E ") else ""))
             add(open_line(cfg, d, pw), out, ("open", dict(base, password=[ord(c) for c in pw])))
+            if doc is not None:
+                K.add_select(ctx, add, doc, cfg, in_domain, base, pw)
             if doc is None or not in_domain:
                 continue
             for n, (g, loc, v) in sorted(wr.stored.items()):
